@@ -343,6 +343,68 @@ let cmd_engine (args : sx list) : sx =
            (all_cells_from host N0))
   | _ -> failwith "engine args"
 
+(* ---------------------------------------------------------- C10: trees *)
+let nat_sx (x : nat) : sx = int_sx (int_of_nat x)
+let tree_sx (cf : 'c -> sx) (t : 'c ctree) : sx =
+  L [bool_sx t.ct_make_det;
+     L (List.map (fun nd -> L [L (List.map nat_sx nd.tn_labels);
+                               L (List.map (fun (c, i) -> L [cf c; nat_sx i]) nd.tn_children)]) t.ct_nodes)]
+
+let sx_port (x : sx) : pgport =
+  match x with
+  | L [A "in"; i] -> PIn (sx_n i)
+  | L [A "out"; i] -> POut (sx_n i)
+  | _ -> failwith "port"
+let port_sx (p : pgport) : sx = match p with PIn i -> L [A "in"; n_sx i] | POut i -> L [A "out"; n_sx i]
+let sx_pgkey (x : sx) : pgkey =
+  match x with
+  | L [A "root"; i] -> PathRoot (sx_n i)
+  | L [A "along"; r; p; l] -> AlongPath (sx_n r, sx_port p, sx_n l)
+  | _ -> failwith "pgkey"
+let pgkey_sx (k : pgkey) : sx =
+  match k with
+  | PathRoot i -> L [A "root"; n_sx i]
+  | AlongPath (r, p, l) -> L [A "along"; n_sx r; port_sx p; n_sx l]
+let sx_pgcons (x : sx) : (pgkey, pgpred) constraint0 =
+  match x with
+  | L [A "weight"; args] -> { cpred = HasNodeWeight; cargs = sx_list sx_pgkey args }
+  | L [A "conn"; l; r; args] -> { cpred = IsConnected (sx_port l, sx_port r); cargs = sx_list sx_pgkey args }
+  | L [A "ne"; n; args] -> { cpred = IsNotEqual (sx_n n); cargs = sx_list sx_pgkey args }
+  | _ -> failwith "pgcons"
+let pgcons_sx (c : (pgkey, pgpred) constraint0) : sx =
+  match c.cpred with
+  | HasNodeWeight -> L [A "weight"; L (List.map pgkey_sx c.cargs)]
+  | IsConnected (l, r) -> L [A "conn"; port_sx l; port_sx r; L (List.map pgkey_sx c.cargs)]
+  | IsNotEqual n -> L [A "ne"; n_sx n; L (List.map pgkey_sx c.cargs)]
+
+let tree_fuel = nat_of_int 100000
+
+let cmd_c10 (x : sx) : sx =
+  match x with
+  | L [A "tree"; A "str"; cs] ->
+      res_sx (tree_sx (ccons_sx n_sx)) (char_tree N.compare (sx_list (sx_ccons sx_n) cs))
+  | L [A "tree"; A "mat"; cs] ->
+      res_sx (tree_sx (ccons_sx mkey_sx)) (char_tree mkey_cmp (sx_list (sx_ccons sx_mkey) cs))
+  | L [A "tree"; A "pg"; cs] ->
+      res_sx (tree_sx pgcons_sx) (pg_tree tree_fuel (sx_list sx_pgcons cs))
+  | L [A "powerset"; cs] ->
+      let l = List.mapi (fun i c -> (c, nat_of_int i)) (sx_list sx_pgcons cs) in
+      (* a panicking conditioned (an argument-less satisfied constraint) cannot arise from try_new *)
+      res_sx (tree_sx pgcons_sx) (with_powerset pgc_eqb pg_conditioned tree_fuel l)
+  | L [A "conditioned"; c; sat] ->
+      res_sx (fun o -> match o with None -> A "-" | Some c -> pgcons_sx c)
+        (pg_conditioned_res (sx_pgcons c) (sx_list sx_pgcons sat))
+  | L [A "with-children"; ch] ->
+      let l = sx_list (fun e -> match e with L [c; is] -> (sx_n c, sx_list (fun i -> nat_of_int (atom_int i)) is) | _ -> failwith "child") ch in
+      res_sx (tree_sx n_sx) (with_children N.eqb l)
+  | L [A ("pairwise" | "transitive" as which); m; items] ->
+      let md = atom_int m in
+      let l = sx_list (fun e -> match e with L [c; i] -> (sx_n c, nat_of_int (atom_int i)) | _ -> failwith "item") items in
+      let is_mutex a b = (int_of_n a) mod md <> (int_of_n b) mod md in
+      res_sx (tree_sx n_sx)
+        (if which = "pairwise" then with_pairwise_mutex N.eqb l is_mutex else with_transitive_mutex N.eqb l is_mutex)
+  | _ -> failwith "c10 args"
+
 let dispatch (x : sx) : sx =
   match x with
   | L (A "c12" :: args) -> cmd_c12 args
@@ -352,6 +414,7 @@ let dispatch (x : sx) : sx =
   | L (A "c16" :: args) -> cmd_c16 args
   | L (A "c14" :: args) -> cmd_c14 args
   | L (A "c15" :: args) -> cmd_c15 args
+  | L (A ("tree" | "powerset" | "conditioned" | "with-children" | "pairwise" | "transitive") :: _) -> cmd_c10 x
   | L ((A ("aut-run" | "cvec" | "single" | "naive" | "cert" | "occ")) :: _ as args) -> cmd_engine args
   | _ -> failwith "unknown command"
 
